@@ -123,8 +123,10 @@ def apply_step(res, st):
             kw["full_p"] = st["full_p"]
         return res.where_best(l=st["l"], p=st["p"], n=st.get("n"), **kw), None
     if op == "raw_contrast":
-        l1 = [dv(v) for v in st["l1"]] if isinstance(st["l"], (list, tuple)) else dv(st["l1"])
-        l2 = [dv(v) for v in st["l2"]] if isinstance(st["l"], (list, tuple)) else dv(st["l2"])
+        a, b = contrast_labels(st)
+        islist = isinstance(st["l"], (list, tuple))
+        l1 = [(v if islist else v[0]) for v in a] if st.get("multi") else (a[0] if islist else a[0][0])
+        l2 = [(v if islist else v[0]) for v in b] if st.get("multi") else (b[0] if islist else b[0][0])
         t = res.raw_contrast(l1, l2, x=st["x"], y="reward", l=st["l"], p=st["p"], span=st.get("span"))
         return None, t
     if op == "raw_learners":
@@ -177,6 +179,17 @@ def run_case(case):
 def tofl(p):
     """[num,den] -> int or float (exact: generated values are small dyadics)"""
     return p[0] if p[1] == 1 else p[0] / p[1]
+
+
+def contrast_labels(st):
+    """-> (labels of side 1, labels of side 2), each label a list of values (one per column of l)"""
+    islist = isinstance(st["l"], (list, tuple))
+
+    def one(v):
+        return [dv(u) for u in v] if islist else [dv(v)]
+    if st.get("multi"):
+        return [one(v) for v in st["l1"]], [one(v) for v in st["l2"]]
+    return [one(st["l1"])], [one(st["l2"])]
 
 
 # ----------------------------------------------------------------------------- naive specification (B)
@@ -536,9 +549,34 @@ def model_result(s, coder, ycol="reward"):
         k = cols.index(idc)
         return [[r[k], [coder.code(cols[j], x) for j, x in enumerate(r) if j != k]] for r in rows]
     icols, irows = s["int"]
-    ix = [icols.index(c) for c in ("environment_id", "learner_id", "evaluator_id", "index", ycol)]
+    ix = [icols.index(c) for c in ("environment_id", "learner_id", "evaluator_id", "index")]
+    iy = icols.index(ycol)
     return {"envs": ptab("env", "environment_id"), "lrns": ptab("lrn", "learner_id"), "evals": ptab("val", "evaluator_id"),
-            "ints": [[r[i] for i in ix] for r in irows]}
+            "ints": [[r[i] for i in ix] + [yint(r[iy])] for r in irows]}
+
+
+YSCALE = 4        # dyadic rewards m/4 reach the (integer-reward) model as m; every average is linear in the rewards
+
+
+def yscale(s, ycol="reward"):
+    icols, irows = s["int"]
+    iy = icols.index(ycol)
+    return YSCALE if any(isinstance(r[iy], float) for r in irows) else 1
+
+
+def yint(y):
+    return int(y * YSCALE) if isinstance(y, float) else y
+
+
+def dyadic_bound_ok(s, ycol="reward"):
+    """hypothesis of Props.C18.window_sum_dyadic with k=2: every reward is m/4 and 4·len·max|m| < 2^53"""
+    icols, irows = s["int"]
+    iy = icols.index(ycol)
+    ys = [r[iy] for r in irows]
+    if not all(float(y * YSCALE).is_integer() for y in ys):
+        return False
+    B = max([abs(int(y * YSCALE)) for y in ys] or [0])
+    return YSCALE * max(1, len(ys)) * max(1, B) < 2 ** 53
 
 
 def col_ref(s, name):
@@ -565,9 +603,9 @@ def int_ok(s, ycol="reward"):
         if not all(isinstance(r[i], int) and not isinstance(r[i], bool) and r[i] >= 0 for i in ix):
             return False
         y = r[icols.index(ycol)]
-        if not isinstance(y, int) or isinstance(y, bool):
+        if isinstance(y, bool) or not (isinstance(y, int) or (isinstance(y, float) and float(y * YSCALE).is_integer())):
             return False
-    return True
+    return dyadic_bound_ok(s, ycol)
 
 
 # ----------------------------------------------------------------------------- the property
@@ -584,12 +622,19 @@ class C18(Property):
             "duplicate parameter values; value types str/int/None/bool/float/''/tuple and, rarely, frozenset), 1-3 learners, "
             "1-2 evaluators, missing triples, ragged lengths 1-7, rewards small ints (also 0/1, bool, dyadic floats), rows "
             "sometimes handed to the constructor in reverse order; chains of 1-4 steps of where_fin (n in None/'min'/0/k, l and p ids, "
-            "parameter columns, lists, swapped roles), where, where_best (l,p,n,full_l,full_p), raw_contrast (two labels of a learner column, x index / "
+            "parameter columns, lists, swapped roles), where, where_best (l,p,n,full_l,full_p), raw_contrast (one or several labels per side of a learner column, x also not determined by p, x index / "
             "environment columns, p environment / (environment,evaluator) / an environment column, all spans), raw_learners (x index/parameter columns, span None/0..6, "
             "p None or given); plus direct moving_average calls (all spans, weights None/'exp'/list incl. zeros). Every step is "
             "checked from the real code's own pre-state. Non-trivial = a where_fin step that removed or cut something but kept "
             "something, or a raw_learners table with >= 2 values, or a moving_average over >= 3 values; distinct by canonical JSON")
     trusted_base = [
+        "where_best on key columns of mixed type: the order of filter_best's `groups` list after `try: sorted(groups)` is obtained by the "
+        "harness from Python's own sorted() on the same tuples and handed to the model (`ordLv`); where every key column is "
+        "homogeneous the model sorts itself (`sortLv`)",
+        "dyadic rewards m/4 reach the integer-reward model as m and its exact averages are divided by 4 again (all averages are linear "
+        "in the rewards); the harness checks the hypothesis of window_sum_dyadic (4*rows*max|m| < 2^53) and then demands float == rational exactly",
+        "raw_contrast: `sorted(XY.items())` raising TypeError on a 'b-a' label next to a plain non-string x value is modelled by the flag strX "
+        "(computed by the harness from the x column's values)",
         "where_best: the model walks the full_l levels of a cell in ascending order of order-preserving codes (the harness ranks each "
         "column's values by Python's sort); (A) for where_best is applied when the key columns are homogeneous (all numbers or all "
         "strings) and either no exact tie for the best mean exists or every evaluation mean is over a power-of-two number of integer "
@@ -804,6 +849,18 @@ class C18(Property):
         lens = sorted(len(e[3]) for e in case["evals"]) or [3]
         st = {"op": "raw_contrast", "l": l, "l1": (a if isinstance(l, list) else a[0]), "l2": (b if isinstance(l, list) else b[0]),
               "x": rng.choice(xs), "p": p, "span": rng.choice([None, None, 1, 2, 3, 0, lens[0], lens[-1] + 1])}
+        if ec and rng.chance(0.2):
+            # x not determined by the pairing value: labels f"{x2}-{x1}" (and, for non-string x, TypeError next to plain values)
+            st["p"] = ec[0]
+            st["x"] = rng.choice(["environment_id"] + list(ec[1:]))
+        if len(labs) >= 3 and rng.chance(0.3) and a in labs and b in labs:
+            # several labels on a side
+            others = [u for u in labs if u != a and u != b]
+            side1 = [a] + ([rng.choice(others)] if rng.chance(0.7) else [])
+            side2 = [b] + ([u for u in others if u not in side1][:1] if rng.chance(0.5) else [])
+            st["multi"] = True
+            st["l1"] = [(u if isinstance(l, list) else u[0]) for u in side1]
+            st["l2"] = [(u if isinstance(l, list) else u[0]) for u in side2]
         return st
 
     def gen_ma(self, rng, boundary=False):
@@ -992,8 +1049,13 @@ class C18(Property):
             undefined = op in ("raw_learners", "raw_contrast") and st["x"] == "index" and st.get("span") == 0
             if op == "raw_contrast" and "contrast:mixed-x-labels" in tags[-3:]:
                 undefined = True
+            if op == "raw_contrast" and st["x"] != "index" and not all(coder.sortable(c) for c in aslist(st["x"])):
+                undefined = True        # x column of mixed types: which labels sorted() can compare is not modelled
+                tags.append("contrast:A-skipped-unsortable-x")
             f2_here = any(f["sig"] == F2_SIG for f in fails[nfails0:])   # the model groups by equality; (B) reports this step
             small = len(pre["int"][1]) <= MAX_MODEL_ROWS
+            if yscale(pre, st.get("y", "reward")) != 1 and op in ("raw_learners", "raw_contrast", "where_best"):
+                tags.append("dyadic-stream:" + op)      # the model's exact rational must equal the float exactly
             if not small:
                 tags.append("A:skipped-large-state")
             if op == "where_best" and not best_a_ok:
@@ -1061,6 +1123,17 @@ class C18(Property):
                     t = [t for t in exp if got[t] != exp[t]][0]
                     fails.append(F("B", "where_fin(n=%r,l=%r,p=%r) leaves %d rows of evaluation %s, expected %d (first rows in index order)"
                                    % (n, l, p, len(got[t]), t, len(exp[t])), "fin:wrong-length"))
+        # the documented postcondition itself, evaluated on what the real code returned
+        if l or p:
+            dg = Direct(post)
+            keptp, levelsp, groupsp = dg.kept_by_pairing(l, p)
+            rec["post_complete"] = (keptp == set(dg.evals))
+            if not rec["post_complete"] and not any(f["sig"] in (F3_SIG, P15_SIG, F2_SIG) for f in fails):
+                badg = [(k, g) for k, g in groupsp if not set(g) <= keptp]
+                fails.append(F("B", "where_fin(n=%r,l=%r,p=%r) returns the %s-group %r with evaluations %s: not exactly one per level %s"
+                               % (n, l, p, p, badg[0][0], badg[0][1], levelsp), "fin:result-not-completely-paired"))
+            if isinstance(n, int) and not isinstance(n, bool) and n and any(len(rows) != n for rows in dg.evals.values()):
+                fails.append(F("B", "where_fin(n=%r,l=%r,p=%r) returns evaluations of lengths %s" % (n, l, p, sorted(set(len(r) for r in dg.evals.values()))), "fin:result-not-equal-length"))
         removed = len(d.evals) - len(exp)
         cut = sum(1 for t in exp if len(exp[t]) < len(d.evals[t]))
         if removed:
@@ -1128,7 +1201,22 @@ class C18(Property):
         cols = [c for c in aslist(l) + aslist(p) + aslist(fl) if c != "full_name"]
         sortable = all(coder.sortable(c) for c in cols) and "full_name" not in aslist(l) + aslist(p) + aslist(fl)
         pow2 = all((len(rows[:n]) & (len(rows[:n]) - 1)) == 0 for rows in fin.values())
-        a_ok = sortable and (pow2 or not ties)
+        if not sortable:
+            # the order of filter_best's `groups` list after `try: groups = sorted(groups) except: pass`, from Python's own
+            # sorted() on the same tuples (key values of mixed type: it raises, or happens not to compare the odd pair)
+            names = rec.get("full_names", {})
+
+            def rk(cols, t):
+                vals = [(names.get(t[1]) if c == "full_name" else d.cell(c, t)) for c in aslist(cols)]
+                return tuple(vals) if isinstance(cols, (list, tuple)) else vals[0]
+            idx = [(rk(p, t), rk(l, t), rk(fl, t), t) for t in fin]
+            try:
+                idx = sorted(idx)
+                tags.append("best:order=sorted-by-python")
+            except Exception:  # noqa
+                tags.append("best:order=table(sorted-raised)")
+            rec["best_order"] = [list(i[3]) for i in idx]
+        a_ok = pow2 or not ties
         if not a_ok:
             tags.append("best:A-skipped")
         return len(cells) > 0 and len(fin) > len(got) > 0, a_ok
@@ -1140,35 +1228,41 @@ class C18(Property):
         d = Direct(pre)
         l, x, p, span = st["l"], st["x"], st["p"], st.get("span")
         lcols = aslist(l)
-        v1 = [dv(v) for v in st["l1"]] if isinstance(l, (list, tuple)) else [dv(st["l1"])]
-        v2 = [dv(v) for v in st["l2"]] if isinstance(l, (list, tuple)) else [dv(st["l2"])]
-        if v1 == v2:
+        labs1, labs2 = contrast_labels(st)
+        if any(a in labs2 for a in labs1):
             return "raise", d
         if not d.irows:
             return "raise", d
         sides = []
-        for vs in (v1, v2):
-            evs = OrderedDict((t, rows) for t, rows in d.evals.items() if all(d.cell(c, t) == v for c, v in zip(lcols, vs)))
-            keys = [d.key(p, t) for t in evs]
-            if any(keys.count(k) > 1 for k in keys):
-                return "unpaired", d
-            sides.append(OrderedDict((d.key(p, t), (t, rows)) for t, rows in evs.items()))
+        for labs in (labs1, labs2):
+            side = OrderedDict()          # pairing value -> [(t, rows)] label after label
+            for vs in labs:
+                evs = OrderedDict((t, rows) for t, rows in d.evals.items() if all(d.cell(c, t) == v for c, v in zip(lcols, vs)))
+                keys = [d.key(p, t) for t in evs]
+                if any(keys.count(k) > 1 for k in keys):
+                    return "unpaired", d   # one label evaluated twice under one pairing value: the card='S' dict overwrites
+                for t, rows in evs.items():
+                    side.setdefault(d.key(p, t), []).append((t, rows))
+            sides.append(side)
+        if x == "index" and (len(labs1) > 1 or len(labs2) > 1):
+            return "unpaired", d           # several labels zipped position by position: nothing documented; (A) only
         out = {}
         for k in sides[0]:
             if k not in sides[1]:
                 continue
-            (t1, r1), (t2, r2) = sides[0][k], sides[1][k]
-            y1, y2 = [r[d.iy] for r in r1], [r[d.iy] for r in r2]
-            if x == "index":
-                for i, (a, b) in enumerate(zip(r1, r2)):
-                    s1 = None if (span is None or span >= len(y1)) else span
-                    s2 = None if (span is None or span >= len(y2)) else span
-                    out.setdefault(a[d.ii], []).append((d.window_mean(y1, s1, i), d.window_mean(y2, s2, i)))
-            else:
-                x1, x2 = d.rawkey(x, t1), d.rawkey(x, t2)
-                lab = x1 if x1 == x2 else "%s-%s" % (x2, x1)
-                sp = None if not span else span
-                out.setdefault(lab, []).append((d.window_mean(y1, sp, len(y1) - 1), d.window_mean(y2, sp, len(y2) - 1)))
+            for (t1, r1) in sides[0][k]:
+                for (t2, r2) in sides[1][k]:
+                    y1, y2 = [r[d.iy] for r in r1], [r[d.iy] for r in r2]
+                    if x == "index":
+                        for i, (a, b) in enumerate(zip(r1, r2)):
+                            s1 = None if (span is None or span >= len(y1)) else span
+                            s2 = None if (span is None or span >= len(y2)) else span
+                            out.setdefault(a[d.ii], []).append((d.window_mean(y1, s1, i), d.window_mean(y2, s2, i)))
+                    else:
+                        x1, x2 = d.rawkey(x, t1), d.rawkey(x, t2)
+                        lab = x1 if x1 == x2 else "%s-%s" % (x2, x1)
+                        sp = None if not span else span
+                        out.setdefault(lab, []).append((d.window_mean(y1, sp, len(y1) - 1), d.window_mean(y2, sp, len(y2) - 1)))
         return (out if out else "raise"), d
 
     def contrast_got(self, rec):
@@ -1190,13 +1284,25 @@ class C18(Property):
     def check_contrast(self, st, rec, fails, tags, coder):
         call = "raw_contrast(%r,%r,x=%r,l=%r,p=%r,span=%r)" % (st["l1"], st["l2"], st["x"], st["l"], st["p"], st.get("span"))
         tags.append("contrast:x=%s" % ("index" if st["x"] == "index" else "params"))
+        if st.get("multi"):
+            tags.append("contrast:several-labels")
         if st["x"] == "index" and st.get("span") == 0:
             tags.append("contrast:undefined-span0")
             return False
         exp, d = self.contrast_expected(st, rec["pre"])
+        if rec.get("err") == "KeyError" and st["l"] == "learner_id":
+            labs1, labs2 = contrast_labels(st)
+            if any(v[0] not in d.L for v in labs1[:1] + labs2[:1]):
+                tags.append("contrast:mixed-x-labels")      # (reuses the skip tag) the legend looks up the first label's full_name: an
+                return False                                 # absent learner id as first of several labels is a caller error
         if rec.get("err") == "TypeError" and st["x"] != "index":
             mixed = isinstance(exp, dict) and len(set(type(k).__name__ for k in exp)) > 1
             unsortable = not all(coder.sortable(c) for c in aslist(st["x"]))
+            if not unsortable:
+                tags.append("contrast:TypeError-label-next-to-value")   # modelled (`strX`): (A) compares the exception
+                if isinstance(exp, dict) and not mixed:
+                    fails.append(F("B", "%s raised TypeError although all x labels %s are of one kind" % (call, list(exp)), "contrast:raises-TypeError"))
+                return False
             if mixed or unsortable or exp == "unpaired":
                 # raw_contrast sorts its x labels without the str fallback raw_learners has: 'b-a' strings next to plain
                 # values (x not determined by p) or an x column of mixed types make sorted() raise; outside the statement
@@ -1299,6 +1405,13 @@ class C18(Property):
                 fails.append(F("C", "model of where_fin differs from its spec although the hypotheses hold: %s vs %s" % (canonj(ans["model"])[:300], canonj(ans["spec"])[:300]), "C:where_fin"))
             if not ans["hyp"]:
                 tags.append("hyp:false")
+            if lp is not None and "post" in rec and "post_complete" in rec and int_ok(rec["post"]):
+                pcm = ask(driver, {"kind": "complete", "res": model_result(rec["post"], coder), "l": lp["l"], "p": lp["p"]})
+                if pcm["model"] != {"ok": rec["post_complete"]}:
+                    fails.append(F("A", "pairingComplete on the result of where_fin(n=%r,l=%r,p=%r): model %s, direct evaluation %s"
+                                   % (st.get("n"), l, p, pcm["model"], rec["post_complete"]), "A:pairingComplete"))
+                elif ans["hyp"] and pcm["model"] != {"ok": True} and canonj(impl) == canonj(ans["joint"]):
+                    fails.append(F("C", "the result of the model's where_fin is not completely paired although the hypotheses hold", "C:pairingComplete"))
             return ans["model"]
         if op == "raw_contrast":
             l, x = st["l"], st["x"]
@@ -1315,12 +1428,14 @@ class C18(Property):
                     cols = [cc for cc in pre[tb][0] if cc != idc]
                     out.append({"tbl": tb, "j": (None if c == idc else cols.index(c)), "v": (v if c == idc else coder.code(c, v))})
                 return out
-            v1 = [dv(v) for v in st["l1"]] if isinstance(l, (list, tuple)) else [dv(st["l1"])]
-            v2 = [dv(v) for v in st["l2"]] if isinstance(l, (list, tuple)) else [dv(st["l2"])]
-            if not all(isinstance(v, int) and not isinstance(v, bool) for c, v in zip(lcols, v1 + v2) if c in ID_COLS):
+            labs1, labs2 = contrast_labels(st)
+            if not all(isinstance(v, int) and not isinstance(v, bool) for vs in labs1 + labs2 for c, v in zip(lcols, vs) if c in ID_COLS):
                 return None
-            ans = ask(driver, {"kind": "contrast", "res": res, "sel1": sel(v1), "sel2": sel(v2), "p": col_refs(pre, st["p"]),
-                               "x": ("index" if x == "index" else col_refs(pre, x)), "span": st.get("span")})
+            dd = Direct(pre)
+            strx = x != "index" and all(isinstance(dd.cell(c, t), str) for t in dd.evals for c in aslist(x)) and not isinstance(x, (list, tuple))
+            ans = ask(driver, {"kind": "contrast", "res": res, "sels1": [sel(v) for v in labs1], "sels2": [sel(v) for v in labs2],
+                               "p": col_refs(pre, st["p"]), "x": ("index" if x == "index" else col_refs(pre, x)), "span": st.get("span"),
+                               "strx": bool(strx)})
             m = ans["model"]
             if "err" in rec or "err" in m:
                 if rec.get("err") != m.get("err"):
@@ -1338,7 +1453,7 @@ class C18(Property):
                 else:
                     a, b = real(x, x1), real(x, x2)
                     lab = a if a == b else "%s-%s" % (b, a)
-                exp.setdefault(lab, []).extend((unq(pq[0]), unq(pq[1])) for pq in pairs)
+                exp.setdefault(lab, []).extend((unq(pq[0]) / yscale(pre), unq(pq[1]) / yscale(pre)) for pq in pairs)
             got = self.contrast_got(rec)
             if not self.same_pairs(got, exp):
                 fails.append(F("A", "raw_contrast(%r,%r,x=%r,l=%r,p=%r,span=%r): implementation %s, model %s" % (st["l1"], st["l2"], x, l, st["p"], st.get("span"), got, {str(k): [(str(a), str(b)) for a, b in v] for k, v in exp.items()}), "A:raw_contrast"))
@@ -1347,7 +1462,8 @@ class C18(Property):
             return m
         if op == "where_best":
             ans = ask(driver, {"kind": "best", "res": res, "l": col_refs(pre, st["l"]), "p": col_refs(pre, st["p"]), "n": st.get("n"),
-                               "fl": col_refs(pre, st.get("full_l", "learner_id")), "fp": col_refs(pre, st.get("full_p", "environment_id"))})
+                               "fl": col_refs(pre, st.get("full_l", "learner_id")), "fp": col_refs(pre, st.get("full_p", "environment_id")),
+                               "order": rec.get("best_order")})
             impl = {"err": rec["err"]} if "err" in rec else {"ok": model_result(rec["post"], coder)}
             if canonj(impl) != canonj(ans["model"]):
                 fails.append(F("A", "where_best(l=%r,p=%r,n=%r): implementation %s, model %s" % (st["l"], st["p"], st.get("n"), canonj(impl)[:400], canonj(ans["model"])[:400]), "A:where_best"))
@@ -1392,7 +1508,8 @@ class C18(Property):
                 mm = sorted(m["ok"], key=lambda e: json.dumps(e[:2]))
                 if [e[:2] for e in mm] != [e[:2] for e in impl["ok"]]:
                     return False
-                return all(len(a[2]) == len(b[2]) and all(same_number(u, unq(w)) for u, w in zip(a[2], b[2])) for a, b in zip(impl["ok"], mm))
+                sc = yscale(pre, st.get("y", "reward"))
+                return all(len(a[2]) == len(b[2]) and all(same_number(u, unq(w) / sc) for u, w in zip(a[2], b[2])) for a, b in zip(impl["ok"], mm))
             if not same(ans["model"]) and not same(ans["legacy"]):
                 fails.append(F("A", "raw_learners(x=%r,l=%r,p=%r,span=%r): implementation %s, model %s" % (x, l, p, st.get("span"), json.dumps(impl, default=str)[:400], canonj(ans["model"])[:400]), "A:raw_learners"))
             if ans["hyp"] and canonj(ans["model"]) != canonj(ans["spec"]):
@@ -1549,8 +1666,10 @@ class C18(Property):
                 col, arg = st["kw"][0]
                 lines.append("r = r.where(**{%r: %r})" % (col, [dv(x) for x in arg] if isinstance(arg, list) else dv(arg)))
             elif st["op"] == "raw_contrast":
-                l1 = [dv(v) for v in st["l1"]] if isinstance(st["l"], (list, tuple)) else dv(st["l1"])
-                l2 = [dv(v) for v in st["l2"]] if isinstance(st["l"], (list, tuple)) else dv(st["l2"])
+                a_, b_ = contrast_labels(st)
+                isl = isinstance(st["l"], (list, tuple))
+                l1 = [(v if isl else v[0]) for v in a_] if st.get("multi") else (a_[0] if isl else a_[0][0])
+                l2 = [(v if isl else v[0]) for v in b_] if st.get("multi") else (b_[0] if isl else b_[0][0])
                 lines.append("t = r.raw_contrast(%r, %r, x=%r, y='reward', l=%r, p=%r, span=%r); print(t.columns, list(t))" % (l1, l2, st["x"], st["l"], st["p"], st.get("span")))
             elif st["op"] == "where_best":
                 lines.append("r = r.where_best(l=%r, p=%r, n=%r, full_l=%r, full_p=%r)" % (st["l"], st["p"], st.get("n"), st.get("full_l", "learner_id"), st.get("full_p", "environment_id")))
